@@ -59,52 +59,40 @@ func NewAutoEscapeExtension() *AutoEscapeExtension {
 
 // AutoEscapeVisitor can be used to automatically apply the "escape" filter
 // to any PrintNode.
-type autoEscapeVisitor struct {
-	stack []string
-}
-
-// push adds the given name on top of the stack.
-func (v *autoEscapeVisitor) push(name string) {
-	v.stack = append(v.stack, name)
-}
-
-// pop removes the top-most name on the stack.
-func (v *autoEscapeVisitor) pop() {
-	if len(v.stack) > 0 {
-		v.stack = v.stack[0 : len(v.stack)-1]
-	}
-}
-
-func (v *autoEscapeVisitor) current() string {
-	if len(v.stack) == 0 {
-		// TODO: This is an invalid state.
-		return ""
-	}
-	return v.stack[len(v.stack)-1]
-}
+//
+// The visitor is shared by every tree parsed by an Env, possibly concurrently,
+// so it keeps no state between calls: when a module is entered, every print
+// statement below it is wrapped right away.
+type autoEscapeVisitor struct{}
 
 func (v *autoEscapeVisitor) Enter(n parse.Node) {
-	switch node := n.(type) {
-	case *parse.ModuleNode:
-		v.push(v.guessTypeFromName(node.Origin))
-	case *parse.BlockNode:
-		v.push(v.guessTypeFromName(node.Origin))
-	case *parse.PrintNode:
-		ct := v.current()
-		v := node.X
-		r := parse.NewFilterExpr(
-			"escape",
-			[]parse.Expr{v, parse.NewStringExpr(ct, v.Start())},
-			v.Start(),
-		)
-		node.X = r
+	if node, ok := n.(*parse.ModuleNode); ok {
+		v.escapePrints(node, v.guessTypeFromName(node.Origin))
 	}
 }
 
-func (v *autoEscapeVisitor) Leave(n parse.Node) {
-	switch n.(type) {
-	case *parse.ModuleNode, *parse.BlockNode:
-		v.pop()
+func (v *autoEscapeVisitor) Leave(n parse.Node) {}
+
+// escapePrints wraps the expression of every PrintNode at or below n in an
+// application of the "escape" filter for content type ct. A block is escaped
+// for the content type of the template it originates from.
+func (v *autoEscapeVisitor) escapePrints(n parse.Node, ct string) {
+	if n == nil {
+		return
+	}
+	switch node := n.(type) {
+	case *parse.BlockNode:
+		ct = v.guessTypeFromName(node.Origin)
+	case *parse.PrintNode:
+		x := node.X
+		node.X = parse.NewFilterExpr(
+			"escape",
+			[]parse.Expr{x, parse.NewStringExpr(ct, x.Start())},
+			x.Start(),
+		)
+	}
+	for _, c := range n.All() {
+		v.escapePrints(c, ct)
 	}
 }
 
